@@ -97,7 +97,8 @@ class C10(Check):
         combos = all_combos()
         bad = [x for x in fork_map(self.warm_combo, combos, workers, 900) if x[1] != "ok"]
         # second, sequential pass repairs index entries lost to concurrent writers
-        bad += [x for x in fork_map(lambda cs: [self.warm_combo(c) for c in cs], [combos], 1, 1800) if x[1] != "ok"]
+        # second parallel pass: near-free when cached, recompiles entries lost to concurrent index writers
+        bad += [x for x in fork_map(self.warm_combo, combos, workers, 1500) if x[1] != "ok"]
         return bad
 
     def warm_combo(self, combo):
